@@ -1036,6 +1036,26 @@ def r7_no_recursion(rule, root=None):
 from .. import factrules as FR
 
 
+def r_constant_verbatim(rule, root=None):
+    """`Context::constant(f)` interns exactly the value it was given: every constant (typed by the user, imported from a
+    tree, or produced by folding) passes through it, and the rewrite rules then test it with `== 0.0` / `== 1.0` - a
+    value altered on the way in (flushed, rounded, canonicalised) makes those rules fire on the wrong constant"""
+    fn = A.find_fn(CTX, "constant", self_ty="Context", root=root)
+    params = [A.binding_name(i_["pat"]) for i_ in fn["sig"]["inputs"] if isinstance(i_, dict) and "pat" in i_]
+    if not params:
+        rule.lost("Context::constant(f)")
+        return
+    f = params[0]
+    shadows = [l_ for l_ in A.find(fn["body"], "Let") if A.binding_name(l_["pat"]) == f]
+    consts = [c for c in A.find(fn["body"], "Call") if (A.path_segs(c["func"]) or [])[-2:] == ["Op", "Const"]]
+    if shadows:
+        rule.bad("constant|altered", "Context::constant rebinds its argument (`%s`) before interning it: constants must enter the arena bit for bit" % A.unparse(shadows[0])[:70], A.where(CTX, shadows[0]))
+    elif len(consts) == 1 and str(A.ftxt(consts[0]["args"][0])) in ("OrderedFloat(%s)" % f, "%s.into()" % f, "OrderedFloat::from(%s)" % f):
+        rule.ok("Context::constant interns Op::Const of its argument unchanged", file=CTX, line=fn["ln"])
+    else:
+        rule.bad("constant|value", "Context::constant must intern `Op::Const(OrderedFloat(%s))` of its own argument" % f, A.where(CTX, fn))
+
+
 def run(ctx):
     r = ctx.rule("R1", "constructor rewrites are identities over the reals under their premises", 20)
     ctx.guarded(r, r1_rewrites)
@@ -1048,6 +1068,8 @@ def run(ctx):
 
     r = ctx.rule("R2b", "the opcode evaluators that constant folding applies compute their namesake operator", 30)
     ctx.guarded(r, r_reference_eval)
+    r = ctx.rule("R2c", "constants enter the arena bit for bit: Context::constant interns its argument unchanged", 1)
+    ctx.guarded(r, r_constant_verbatim)
     r = ctx.rule("R3", "import/export push and pop operands in matching order and rebuild with the same opcode", 21)
     ctx.guarded(r, r3_stack_discipline)
     from . import C13 as C13_
